@@ -18,4 +18,5 @@ pub mod eng_cli;
 pub mod eng_keys;
 pub mod eng_capi;
 pub mod eng_mem;
+pub mod eng_compfs;
 pub mod alloc;
